@@ -54,7 +54,7 @@ class Exec:
         self.stmts = stmts
         phase = ExecutionPhase("p", "p", list(stmts))
         code = DAGCode({"p": phase}, "p")
-        self.interp = NumpyInterpreter(code, {fn: FUNCS[fn][1] for fn in sc.funcs})
+        self.interp = NumpyInterpreter(code, {fn: sc.func_impl(fn) for fn in sc.funcs})
 
     def run(self, order, store0, record=False):
         """Returns dict(events, term, store, acc) ; acc[i] = (reads, writes) when record."""
